@@ -87,7 +87,8 @@ class C16(Prop):
                 [('a', 'b', 'c'), ('a', 'b', 'd'), ('a', 'b', 'e')],
                 [('a', 'b', 'c'), ('b', 'c', 'd'), ('b', 'e')],
                 [('a', 'b'), ('a', 'b', 'c'), ('c', 'd')],              # non-maximal input clique (dropped by convex=False)
-                [('a', 'b', 'c'), ('c', 'd', 'e'), ('e', 'f')]]
+                [('a', 'b', 'c'), ('c', 'd', 'e'), ('e', 'f')],
+                [('a', 'b', 'c'), ('b', 'a', 'd')], [('c', 'a', 'b'), ('b', 'd', 'a'), ('d', 'e')]]     # shared attributes listed in different orders
         gbp = []
         for cl in lib:
             n = len(set(sum(cl, ())))
@@ -101,6 +102,10 @@ class C16(Prop):
         for i in range(n_rand):
             n = int(rng.randint(3, 7))
             cl = ac.random_junction_tree(rng, n)
+            if i % 3 == 1:
+                # "forall clique sets": a clique may list its attributes in any order, and two cliques may list the attributes they share
+                # in different relative orders
+                cl = [tuple(c_[j] for j in rng.permutation(len(c_))) for c_ in cl]
             c = dict(kind='gbp-exact', attrs=A[:n], shape=shape_for(n, 1 if i % 7 == 0 else 2), cliques=ac.jl(cl),
                      minimal=bool(rng.randint(2)), iters=int(rng.choice([200, 300])), total=float(rng.choice([1.0, 10.0, 0.01, 1e4])),
                      pot_on='maximal' if i % 3 else 'all', warm=bool(i % 4 == 0))
